@@ -189,7 +189,9 @@ def witness(kind, role, op_txt, what):
         progs += ["select {v = (g 1 (-b..c) 2)}", "select {v = ((b ** c)..d) ** e}", "select {v = e ** (d..(b ** c))}", "select {v = (g 1 (b..(-c)) 2)}"]
     if kind == "FuncCall":
         progs += ["select {v = (g 1 (-b) 2)}", "select {v = (g (-b) 1 2)}", "select {v = (g 1 2 (-b))}", "select {v = (g (+b) (==c) 2)}", "select {v = ((f (b ** c) 1) ** d)}",
-                  "select {v = d ** (f (b ** c) 1)}", "let h = a x:0 -> a\nfrom t\nselect {v = (h x:(-b) 1)}", "select {v = ((f b 1) + 2)}"]
+                  "select {v = d ** (f (b ** c) 1)}", "let h = a x:0 -> a\nfrom t\nselect {v = (h x:(-b) 1)}", "select {v = ((f b 1) + 2)}",
+                  "let h = a x:0 -> a\nfrom t\nselect {v = (h x:(f b 1) 2)}", "let h = a x:0 -> a\nfrom t\nselect {v = (h x:(b + c) 2)}",
+                  "let h = a x:0 -> a\nfrom t\nselect {v = (h x:(b ?? c) 2)}"]
     if kind == "Expr":
         progs += ["select {v = (b + c) * d}", "select {v = d * (b + c)}", "select {v = (g 1 (-b) 2)}", "select {v = -(b + c)}", "select {v = (b - c) - d, w = b - (c - d)}",
                   "select {v = (f (g 1 2 3) 1)}"]
@@ -262,6 +264,14 @@ def run(R, tier, seed, drv_path):
             return some(SOpaque("text", False))
         stubs["write_within::<prqlc_parser::parser::pr::Expr>"] = rec_within
         stubs["write_within"] = rec_within
+
+        def rec_direct(I, st, a):
+            # a child written by calling its own writer: it does not get the parent's binding strength
+            node = models.deref(I, st, a[0])
+            st.trace.append(("direct", node.label.lstrip("*") if isinstance(node, SOpaque) else repr(node), models.deref(I, st, a[1])))
+            return some(SOpaque("text", False))
+        stubs["<prqlc_parser::parser::pr::Expr as WriteSource>::write"] = rec_direct
+        stubs["<pr::Expr as WriteSource>::write"] = rec_direct
         label = f"{kind}{kw or ''}"
         I = explore(R, funcs, stubs, kname, [SRef(-1, ("cell", 0)), C.opt(cs, pos, unb)], [pk], pre, label, unwind=8)
         if I is None:
@@ -269,6 +279,14 @@ def run(R, tier, seed, drv_path):
         for e in I.exits:
             calls = [t for t in e.trace if isinstance(t, tuple) and t and t[0] == "within"]
             got = [c[1] for c in calls]
+            direct = [t for t in e.trace if isinstance(t, tuple) and t and t[0] == "direct"]
+            if direct:
+                what = f"the child {direct[0][1]} written by its own writer instead of write_within (the parent's binding strength is not applied)"
+                if report(R, drv, kind, direct[0][1], None, what, {}):
+                    nviol += 1
+                else:
+                    R.engine_error(f"K-fmt-writer {label}: {what}, and no witness program changes")
+                continue
             if got != roles:
                 # the writer does not visit the operands in source order / skips one: structural, decided without the solver
                 if report(R, drv, kind, "operands", None, f"children written in order {got}, expected {roles}", {}):
